@@ -147,6 +147,14 @@ def visible_checkpoints_complete(fs, reference_states):
   return None
 
 
+def _typed(x):
+  """State with leaf types: a resumed run must return the same KIND of leaves as an uninterrupted one (an int that comes back
+  as a device array, or a float64 as float32, is a different final state)."""
+  if isinstance(x, (tuple, list)):
+    return tuple(_typed(v) for v in x)
+  return (type(x).__name__, x)
+
+
 def scenario(fs_factory, crashes, cut):
   """Runs the experiment, crashing at the given effect indices (relative to each attempt), then to completion."""
   # reference: never interrupted, fresh file system
@@ -179,8 +187,8 @@ def scenario(fs_factory, crashes, cut):
       violations.append(bad)
   fs.arm(-1)
   if not violations:
-    if result != ref_state:
-      violations.append('final state %r differs from the uninterrupted run %r' % (result, ref_state))
+    if result != ref_state or _typed(result) != _typed(ref_state):
+      violations.append('final state %r differs from the uninterrupted run %r' % (_typed(result) if result == ref_state else result, ref_state))
     elif not fs.exists(ROOT + '/final.tsv') or fs.read(ROOT + '/final.tsv') != ref_tsv:
       violations.append('final evaluation output differs from the uninterrupted run')
   for f in (ref_fs, fs):
